@@ -77,7 +77,7 @@ def gen_case(r, hashseed, tier):
   if r.random() < 0.25:
     aux_db = [r.choice(['before', 'after']), r.choice(['aux', 'a_db', 'zz_other'])]
   return {'hashseed': hashseed, 'program': program, 'ground': ground, 'ground_table': ground_table,
-          'versions': versions, 'ops': ops, 'aux_db': aux_db}
+          'versions': versions, 'ops': ops, 'aux_db': aux_db, 'attach_via_flag': r.random() < 0.25}
 
 
 def gen_fault(r):
@@ -105,6 +105,7 @@ def program_at(case, version, dbpath):
   p['ground'] = list(case['ground'])
   p['ground_table'] = dict(case.get('ground_table') or {})
   p['attach'] = dbpath
+  p['attach_via_flag'] = bool(case.get('attach_via_flag'))
   if case.get('aux_db'):
     # a second attached database that nothing uses: the grounded tables must still land in logica_home
     where = case['aux_db']
